@@ -92,7 +92,7 @@ def same_outcome(x, y):
 
 
 def awaitify_history(rng):
-    fl = rng.choice(["def", "async", "partial", "object", "awaitobj"])
+    fl = rng.choice(["def", "async", "partial", "object", "awaitobj", "syncfail"])
     n = rng.randrange(1, 7)
     reactions = [("value", rng.randrange(5)) if rng.random() < 0.7 else ("raises", rng.randrange(5)) for _ in range(n)]
     return fl, reactions
@@ -132,6 +132,19 @@ def run_awaitify(fl, reactions):
             def __await__(self):
                 return self.c.__await__()
         fn = lambda: AwObj(afn())  # noqa
+    elif fl == "syncfail":
+        # a plain function returning an awaitable; when it fails, it fails at the call itself, before there is an awaitable
+        class AwObj2:
+            def __init__(self, v):
+                self.v = v
+
+            def __await__(self):
+                if False:
+                    yield
+                return self.v
+
+        def fn():
+            return AwObj2(body())
     else:
         class O:
             def __call__(self):
@@ -349,7 +362,7 @@ def run(tier, seed):
             fails += 1
             rep.violation("neutrality:awaitify", {"flavour": fl, "reactions": reactions, "why": "awaitify wrapper gave %r, the callable itself %r" % (obs, want)})
             continue
-        cfl = {"def": "FDef", "async": "FAsyncDef", "partial": "FPartialAsync", "object": "FCallableObject", "awaitobj": "FCallableObject"}[fl]
+        cfl = {"def": "FDef", "async": "FAsyncDef", "partial": "FPartialAsync", "object": "FCallableObject", "awaitobj": "FCallableObject", "syncfail": "FCallableObject"}[fl]
         cr = lambda r: ("RValue %d" if r[0] == "value" else "RRaises %d") % r[1]  # noqa
         texts.append("(mkWC %s [%s] [%s])" % (cfl, "; ".join(cr(r) for r in reactions), "; ".join("(%d, %s)" % (n, cr(r)) for n, r in obs)))
     outs = coq_eval_files("c03", [HEADER + "Definition cases : list wcase := [\n" + ";\n".join(texts) + "\n].\nEval vm_compute in (wfailing cases).\n"])
